@@ -111,8 +111,11 @@ def _prune(build_root, variant, keep=2):
             p = os.path.join(build_root, name)
             ents.append((os.path.getmtime(p), p))
     ents.sort(reverse=True)
-    for _, p in ents[keep:]:
-        shutil.rmtree(p, ignore_errors=True)
+    now = time.time()
+    for mt, p in ents[keep:]:
+        # a build that another check (on another tree: VSIM_REPO) used within the last hours may still be in use
+        if now - mt > 4 * 3600:
+            shutil.rmtree(p, ignore_errors=True)
 
 
 def ensure(variant="plain", repo=REPO_DIR, quiet=True):
